@@ -49,6 +49,32 @@ func RSAKeys() []*rsa.PrivateKey {
 	return rsaKeys
 }
 
+var (
+	collOnce sync.Once
+	collKeys []*rsa.PrivateKey
+)
+
+// CollidingRSAKeys returns two fixed 2048-bit keys D, E (N_D < N_E, about a quarter of the values
+// below N_E are not below N_D) whose token key ids end in the same byte.
+func CollidingRSAKeys() []*rsa.PrivateKey {
+	collOnce.Do(func() {
+		for i := 5; i <= 6; i++ {
+			b, err := keyFS.ReadFile(fmt.Sprintf("testdata/rsa%d.pem", i))
+			if err != nil {
+				panic(err)
+			}
+			blk, _ := pem.Decode(b)
+			k, err := x509.ParsePKCS1PrivateKey(blk.Bytes)
+			if err != nil {
+				panic(err)
+			}
+			k.Precompute()
+			collKeys = append(collKeys, k)
+		}
+	})
+	return collKeys
+}
+
 // FreshRSA returns a private copy of fixed key i (safe to hand to code under test
 // that might mutate it).
 func FreshRSA(i int) *rsa.PrivateKey {
